@@ -124,7 +124,7 @@ func (n *RawCharLiteralNode) Equal(other value.Value) bool {
 }
 
 func (n *RawCharLiteralNode) String() string {
-	return "r" + value.Char(n.Value).Inspect()
+	return "r`" + string(n.Value) + "`"
 }
 
 func (*RawCharLiteralNode) IsStatic() bool {
